@@ -49,6 +49,8 @@ type SimLink struct {
 	LostFn func()
 	// OnSysClose, if set, is called on the first Close call made by the system.
 	OnSysClose func()
+	// Opened lists the local ends of streams opened by the system on this side, in order.
+	Opened []*SimStream
 }
 
 // NewLink creates a link object owned by transport t. It is not yet reported.
@@ -226,6 +228,9 @@ func (l *SimLink) OpenStream(opts stream.OpenOpts) (stream.Stream, error) {
 	name := fmt.Sprintf("%s/s%d", l.Name, l.streamSeq)
 	l.mu.Unlock()
 	a, b := l.N.newStreamPair(l, l.Peer, name)
+	l.mu.Lock()
+	l.Opened = append(l.Opened, a)
+	l.mu.Unlock()
 	if p := l.Peer; p != nil {
 		p.mu.Lock()
 		p.opens = append(p.opens, b)
@@ -279,6 +284,8 @@ type SimStream struct {
 	mu     sync.Mutex
 	rd     time.Time
 	Closed bool
+	// DeadlineHit: a Read on this end returned os.ErrDeadlineExceeded.
+	DeadlineHit bool
 }
 
 func (n *Net) newStreamPair(la, lb *SimLink, name string) (*SimStream, *SimStream) {
@@ -305,7 +312,13 @@ func (s *SimStream) Read(b []byte) (int, error) {
 	if dl.IsZero() {
 		return s.end.R.Read(b)
 	}
-	return s.end.R.ReadDeadline(b, dl)
+	n, err := s.end.R.ReadDeadline(b, dl)
+	if err == os.ErrDeadlineExceeded {
+		s.mu.Lock()
+		s.DeadlineHit = true
+		s.mu.Unlock()
+	}
+	return n, err
 }
 
 func (s *SimStream) Write(b []byte) (int, error) { return s.end.W.Write(b) }
